@@ -568,12 +568,29 @@ def _profile_apply(prof, lid, ops, held, drv=None):
 def mon_c10(case, obs, prefix):
     bad = []
     prof = {}      # (UP SEID, URR id) -> measurement profile the SMF configured last (independent of the implementation's)
+    gone = set()   # (UP SEID, URR id): removed by an executed Remove URR which the data plane carried out, not created again
     for i, ev, o, prev, prev_dp, dup in walk(case, obs, prefix):
         if o.get("fault"):
             bad.append((i, "fault: " + o["fault"]))
             break
         d = o["dump"]
         sends = o["sends"] or []
+        if ev["t"] == "recv" and not dup and ev["msg"]["k"] in ("est", "mod", "del") and not o.get("panicked"):
+            ops = ev["msg"].get("ops") or {}
+            if ev["msg"]["k"] == "est":
+                for sl in d["slots"] or []:
+                    if sl is not None and live(prev, sl["lid"]) is None:
+                        gone = {k for k in gone if k[0] != sl["lid"]}
+            elif ev["msg"]["k"] == "del":
+                if live(d, ev["msg"]["seid"]) is None:
+                    gone = {k for k in gone if k[0] != ev["msg"]["seid"]}
+            elif any(x["type"] == "modrsp" and x["cause"] == 1 for x in sends):
+                lid_ = ev["msg"]["seid"]
+                for u in ops.get("cURR", []) or []:
+                    gone.discard((lid_, u.get("id")))
+                for c_ in o.get("drv") or []:
+                    if c_["op"] == "remove" and c_["kind"] == "urr" and c_["ok"] and c_["id"] in (ops.get("rURR") or []):
+                        gone.add((lid_, c_["id"]))
         if ev["t"] == "report":
             items = ev["items"]
             s = live(prev, ev["seid"])
@@ -582,6 +599,11 @@ def mon_c10(case, obs, prefix):
                 if sends or core(prev, prev_dp) != core(d, o["dp"] or []):
                     bad.append((i, "report for SEID %d (not live) had an effect" % ev["seid"]))
                 continue
+            for x in reqs:
+                for ie in x["urs"] or []:
+                    if (ev["seid"], ie["urr"]) in gone:
+                        bad.append((i, "Usage Report IE for URR %d of session %d sent although the SMF removed that URR (Remove URR executed, "
+                                       "carried out by the data plane, URR not created again): a removed URR is unknown" % (ie["urr"], ev["seid"])))
             owner = _owner_peer(prev, s, prefix)
             for x in reqs:
                 if x["dst"] != owner:
@@ -985,6 +1007,23 @@ def directed_c05(rnd):
 def _usa(seid, urr, val):
     return {"t": "report", "seid": seid, "items": [{"usa": {"urr": urr, "trig": 2, "vflags": 0, "cnt": [val, 0, 0, 0, 0, 0], "dur": 0,
                                                        "start": 10, "end": 20}}], "fail": [], "usage": []}
+
+
+def directed_c10(rnd):
+    """the history of the former finding removed-urr-lingers (fixed): Remove URR without a final report, then a report naming
+    the removed URR (dropped), the same with a final report, and with a re-created URR (reported again, from 0)"""
+    est = [_rc(0, 1, {"k": "asr", "nid": {"v": 0}}),
+           _rc(0, 2, {"k": "est", "nid": {"v": 0}, "fseid": {"v": 10}, "ops": {"cURR": [{"id": 1, "method": 2, "info": 0}, {"id": 2, "method": 2, "info": 0}]}})]
+    final = {"op": "remove", "id": 1, "rpts": [{"urr": 1, "trig": 0, "vflags": 0, "cnt": [9, 0, 0, 0, 0, 0], "dur": 0, "start": 1, "end": 2}]}
+    return [{"maxretrans": 0, "txseq0": 0, "events": est + [
+                _usa(1, 1, 5),
+                _rc(0, 3, {"k": "mod", "seid": 1, "nid": {"absent": True}, "ops": {"rURR": [1]}}),
+                _usa(1, 1, 6), _usa(1, 2, 7),
+                _rc(0, 4, {"k": "mod", "seid": 1, "nid": {"absent": True}, "ops": {"cURR": [{"id": 1, "method": 2, "info": 0}]}}),
+                _usa(1, 1, 8)]},
+            {"maxretrans": 0, "txseq0": 0, "events": est + [
+                _rc(0, 3, {"k": "mod", "seid": 1, "nid": {"absent": True}, "ops": {"rURR": [1]}}, usage=[final]),
+                _usa(1, 1, 6), _usa(1, 2, 7)]}]
 
 
 def directed_c11(rnd):
